@@ -397,7 +397,8 @@ def source_of(info):
 
 
 def confirm(S, info):
-    body = content_source(info) if info.get('construct') == 'content' else binary_source(info) if info.get('binary') else source_of(info)
+    body = (content_source(info) if info.get('construct') == 'content' else binary_source(info) if info.get('binary')
+            else equation_source(info) if info.get('construct') == 'equation' else source_of(info))
     for src in ([body + '\n'] if not info.get('suppressed') else ['text ' + body + ' more\n']):
         if S.driver.call('erroneous', hexs(src))[1] == '1':
             continue
@@ -718,3 +719,150 @@ def binary_source(info):
     gs, ops = info['gaps'], info['ops']
     src = 'i0' + ''.join(gs[2 * k - 2] + ops[k - 1] + gs[2 * k - 1] + 'i%d' % k for k in range(1, n))
     return '#f(%s)' % src if info['construct'] == 'call' else '#(%s,)' % src
+
+
+# ---------------------------------------------------------------------------------------------------------------
+# equations: `$ .. $` with letters, the line-break backslash, alignment points and blanks / line breaks
+
+E_ATOMS = ['x', 'lb', 'al']
+E_GAPS = ['', ' ', '\n']
+
+
+def equation_sequences(n, atoms=E_ATOMS, gaps=E_GAPS):
+    for ats in itertools.product(atoms, repeat=n):
+        if 'x' not in ats:
+            continue
+        for gs in itertools.product(gaps, repeat=n + 1):
+            ok = True
+            for i in range(n):
+                if i > 0 and gs[i] == '' and ats[i] == 'x' and ats[i - 1] == 'x':
+                    ok = False          # two letters without a blank are one identifier
+                if ats[i] == 'lb' and gs[i + 1] == '':
+                    ok = False          # a backslash is a line break only when whitespace follows
+            if ok:
+                yield list(ats), list(gs)
+
+
+def equation_node(kt, ats, gs):
+    sp = lambda g: [Node(kt.k('Space'), text=Str.lit(g))] if g else []
+    inner = []
+    for i, a in enumerate(ats):
+        if i:
+            inner += sp(gs[i])
+        if a == 'x':
+            inner.append(Node(kt.k('MathText'), text=Str.lit('abcdefgh'[i])))
+        elif a == 'lb':
+            inner.append(Node(kt.k('Linebreak'), text=Str.lit('\\')))
+        else:
+            inner.append(Node(kt.k('MathAlignPoint'), text=Str.lit('&')))
+    return Node(kt.k('Equation'), children=[Node(kt.k('Dollar'), text=Str.lit('$'))] + sp(gs[0]) + [Node(kt.k('Math'), children=inner)] + sp(gs[-1]) +
+                [Node(kt.k('Dollar'), text=Str.lit('$'))])
+
+
+def relex_equation(toks, kt):
+    if len(toks) < 2 or toks[0] != ('w', '$') or toks[-1] != ('w', '$'):
+        return None
+    inner = toks[1:-1]
+    # edge whitespace lies outside the Math node
+    lead = []
+    while inner and inner[0] in (('s',), ('nl',)):
+        lead.append(inner.pop(0))
+    trail = []
+    while inner and inner[-1] in (('s',), ('nl',)):
+        trail.insert(0, inner.pop())
+    kids = []
+    ws = ''
+    for t in inner:
+        if t in (('s',), ('nl',)):
+            ws += ' ' if t == ('s',) else '\n'
+            continue
+        if ws:
+            kids.append(Node(kt.k('Space'), text=Str.lit(ws)))
+            ws = ''
+        w = t[1]
+        if w == '\\':
+            kids.append(Node(kt.k('Linebreak'), text=Str.lit('\\')))
+        elif w == '&':
+            kids.append(Node(kt.k('MathAlignPoint'), text=Str.lit('&')))
+        elif re.match(r'^[a-z]$', w):
+            kids.append(Node(kt.k('MathText'), text=Str.lit(w)))
+        else:
+            return None
+    if not kids:
+        return None
+    # a backslash directly before the closing dollar (its blank was trimmed) is an escape, not a line break: not the same tree any more
+    if kids[-1].kind == kt.k('Linebreak') and not trail:
+        return None
+    g = lambda ts: [Node(kt.k('Space'), text=Str.lit(''.join(' ' if t == ('s',) else '\n' for t in ts)))] if ts else []
+    return Node(kt.k('Equation'), children=[Node(kt.k('Dollar'), text=Str.lit('$'))] + g(lead) + [Node(kt.k('Math'), children=kids)] + g(trail) +
+                [Node(kt.k('Dollar'), text=Str.lit('$'))])
+
+
+def explore_equation(S, max_atoms=3):
+    kt = T.KT
+    core = S.core
+    f_attr = S.find_fn(core, 'AttrStore::new')
+    f_expr = S.find_fn(core, 'PrettyPrinter::convert_expr')
+    found = []
+    tasks = []
+    for n in range(1, max_atoms + 1):
+        for ats, gs in equation_sequences(n):
+            def body(ctx, ats=ats, gs=gs):
+                m = S.machine(core, STD, ctx)
+                m.max_depth = 200
+                root = equation_node(kt, ats, gs)
+                cfg = Agg('Config', None, (2, z3.BitVec('cfg_width', 64), 2, False), pp.CFG_NAMES)
+                c0_ = pp.context(mode=0)
+
+                def describe(mdl):
+                    return dict(construct='equation', atoms=list(ats), gaps=list(gs), suppressed=model_bool(mdl, c0_.get('break_suppressed')))
+
+                def convert(node):
+                    attrs = m.call_fn(f_attr, [node])
+                    pr, _ = pp.printer(m, cfg=cfg, attrs=attrs)
+                    return m.call_fn(f_expr, [pr, c0_, T.make_cast(m, node, 'Expr')])
+                try:
+                    d1 = convert(root)
+                except Panic as p:
+                    S.absorb(m)
+                    ctx.must_hold(False, 'C05:list-construct-panic', lambda mdl: dict(describe(mdl), panic=p.msg))
+                    return
+                for mode, pf in (('broken', False), ('flat-where-possible', True)):
+                    render.prefer_flat = pf
+                    at1 = []
+                    render(d1, False, at1)
+                    t1 = text_of(at1)
+                    if t1 is None:
+                        continue
+                    root2 = relex_equation(t1, kt)
+                    if root2 is None:
+                        ctx.witness('output not read back (%s)' % mode)
+                        continue
+                    try:
+                        d2 = convert(root2)
+                    except Panic as p:
+                        ctx.must_hold(False, 'C05:list-construct-panic', lambda mdl, t1=t1: dict(describe(mdl), second_pass_input=show_tokens(t1), panic=p.msg))
+                        continue
+                    render.prefer_flat = pf
+                    at2 = []
+                    render(d2, False, at2)
+                    t2 = text_of(at2)
+                    ctx.must_hold(t2 == t1, 'C03:equation-layout-is-not-a-fixed-point',
+                                  lambda mdl, t1=t1, t2=t2, mode=mode: dict(describe(mdl), layout=mode, first_pass=show_tokens(t1), second_pass=show_tokens(t2 or [])))
+                    ctx.witness('second pass run (%s)' % mode)
+                S.absorb(m)
+            tasks.append(('twopass.equation[%s]' % show(equation_source(dict(atoms=ats, gaps=gs))), 'two passes of the real printer over the equation %s' % show(equation_source(dict(atoms=ats, gaps=gs))),
+                          body, dict(atoms=n)))
+    for ob, viol in S.explore_batch(tasks):
+        for lab, mdl, info in viol:
+            found.append((lab, info))
+    return found
+
+
+def equation_source(info):
+    s = '$' + info['gaps'][0]
+    for i, a in enumerate(info['atoms']):
+        if i:
+            s += info['gaps'][i]
+        s += {'x': 'abcdefgh'[i], 'lb': '\\', 'al': '&'}[a]
+    return s + info['gaps'][-1] + '$'
